@@ -25,23 +25,40 @@ type tnode struct {
 	kids []*tnode
 	rsrc []byte // stored resource fork (side file .rsrc_<name>), download trees only
 	info bool   // stored information fork (side file .info_<name>) with a comment, download trees only
+	link string // download trees only: the entry is an alias (a symbolic link, as make-alias creates) of this sibling file
 }
 
 // decorate gives some files of a download tree stored fork side files (left by uploads made while
 // PreserveResourceForks was on, or put there by the operator).
-func decorate(rt *rapid.T, label string, kids []*tnode) {
+func decorate(rt *rapid.T, label string, kids []*tnode) []*tnode {
+	// an alias of one of the folder's files now and then: it is an item like any other, sent with the target's bytes
+	var files []*tnode
+	used := map[string]bool{}
+	for _, k := range kids {
+		used[k.name] = true
+		if !k.dir && len(k.name) < 200 {
+			files = append(files, k)
+		}
+	}
+	if len(files) > 0 && rapid.IntRange(0, 3).Draw(rt, label+"_alias") == 0 {
+		tg := files[rapid.IntRange(0, len(files)-1).Draw(rt, label+"_aliasOf")]
+		if n := "alias of " + tg.name; !used[n] {
+			kids = append(kids, &tnode{name: n, data: tg.data, link: tg.name})
+		}
+	}
 	for i, k := range kids {
 		l := fmt.Sprintf("%s_%d", label, i)
 		if k.dir {
-			decorate(rt, l, k.kids)
+			k.kids = decorate(rt, l, k.kids)
 			continue
 		}
-		if len(k.name) > 200 || rapid.IntRange(0, 3).Draw(rt, l+"_forks") != 0 {
+		if k.link != "" || len(k.name) > 200 || rapid.IntRange(0, 3).Draw(rt, l+"_forks") != 0 {
 			continue
 		}
 		k.rsrc = genBytes(rt, l+"_rsrc", rapid.IntRange(1, 300).Draw(rt, l+"_rsrclen"))
 		k.info = rapid.Bool().Draw(rt, l+"_info")
 	}
+	return kids
 }
 
 var treeNameRunes = []rune("abcdefghijklmnopqrstuvwxyzABCXYZ0123456789 _-+()&!,=#")
@@ -131,6 +148,8 @@ func writeTree(dir string, kids []*tnode) {
 		if k.dir {
 			must(os.MkdirAll(p, 0o755))
 			writeTree(p, k.kids)
+		} else if k.link != "" {
+			must(os.Symlink(filepath.Join(dir, k.link), p))
 		} else {
 			must(os.WriteFile(p, k.data, 0o644))
 			if k.rsrc != nil {
@@ -352,7 +371,7 @@ func c10download(ev *evid.Rec) func(rt *rapid.T) {
 		}
 		kids := genTree(rt, "t", 0, &budget, true)
 		kids = wideFolder(rt, kids)
-		decorate(rt, "f", kids)
+		kids = decorate(rt, "f", kids)
 		preserve := rapid.Bool().Draw(rt, "preserveResourceForks") // the option governs what uploads keep, not what downloads send
 		script := rapid.SliceOfN(rapid.IntRange(0, 9), 60, 60).Draw(rt, "script")
 		offs := rapid.SliceOfN(rapid.IntRange(0, 1000), 60, 60).Draw(rt, "offsets")
